@@ -16,7 +16,7 @@
    lexer.py states 4, 41, 7, 8.                                              *)
 EXTENDS Val, TLC, Json, IOUtils, SequencesExt
 
-CONSTANTS Tier,        \* 1: quick universe, 2: thorough universe
+CONSTANTS Tier,        \* 1 / 2: quick / thorough universe of C06, C08; 3 / 4: of C07
           MaxStr,      \* bound on the grown string
           Export,      \* TRUE: print the universe and the pair table
           Need         \* which tables this run uses: subset of {"eq", "lt", "tx"}
@@ -62,17 +62,19 @@ Scalars ==
 P1 == IF Tier = 1
       THEN {VInt(1), VDec(1, 1), VInt(2), VStr(<<97>>), VStr(<<97, 32>>), VBool(1)}
       ELSE {VInt(1), VDec(1, 1), VInt(2), VDec(1, 2), VStr(<<97>>), VStr(<<97, 32>>),
-            VStr(<<97, 39>>), VBool(1), VBool(0), VNull}
+            VBool(1), VNull}
+\* elements of the depth-1 sets (thorough: all insertion orders of up to 4)
+PS == IF Tier = 1 THEN P1 ELSE {VInt(1), VDec(1, 1), VInt(2), VStr(<<97>>), VStr(<<97, 39>>), VBool(1)}
 \* map keys / values
 KP == IF Tier = 1 THEN {VInt(1), VDec(1, 1), VStr(<<97>>), VBool(1), VBool(0)}
       ELSE {VInt(1), VDec(1, 1), VStr(<<97>>), VStr(<<97, 33>>), VBool(1), VBool(0)}
 VP == <<VInt(1), VStr(<<97>>), VDec(1, 1)>>
-LL1 == IF Tier = 1 THEN 2 ELSE 3
-SL1 == IF Tier = 1 THEN 2 ELSE 3
-ML1 == 2
+LL1 == 2
+SL1 == IF Tier = 1 THEN 2 ELSE 4
+ML1 == IF Tier = 1 THEN 2 ELSE 3
 
 Lists1 == {VList(q) : q \in SeqsUpTo(P1, LL1)}
-Sets1  == {VSet(q) : q \in NDSeqs(P1, SL1)}
+Sets1  == {VSet(q) : q \in NDSeqs(PS, SL1)}
 Maps1  == {VMap(q, [i \in 1..Len(q) |-> VP[((i + sh) % 3) + 1]]) :
              q \in NDSeqs(KP, ML1), sh \in (IF Tier = 1 THEN {0} ELSE {0, 1})}
 
@@ -84,9 +86,10 @@ P2 == IF Tier = 1
       ELSE {VInt(1), VList(<< >>), VList(<<VInt(1)>>), VList(<<VDec(1, 1)>>), VSet(<< >>),
             VSet(<<VInt(1)>>), VSet(<<VDec(1, 1)>>),
             VSet(<<VInt(1), VInt(2)>>), VSet(<<VInt(2), VInt(1)>>),
-            VMap(<< >>, << >>), VMap(<<VStr(<<97>>)>>, <<VInt(1)>>),
+            VMap(<<VStr(<<97>>)>>, <<VInt(1)>>),
             VMap(<<VBool(1), VBool(0)>>, <<VInt(1), VInt(2)>>),
             VMap(<<VBool(0), VBool(1)>>, <<VInt(2), VInt(1)>>)}
+P2v == {VInt(1), VSet(<<VInt(2), VInt(1)>>), VList(<<VDec(1, 1)>>)}
 LL2 == 2
 Lists2 == {VList(q) : q \in SeqsUpTo(P2, LL2)}
 Sets2  == {VSet(q) : q \in NDSeqs(P2, 2)}
@@ -94,15 +97,40 @@ Maps2  == IF Tier = 1
           THEN {VMap(<<x>>, <<x>>) : x \in P2}
                \cup {VMap(<<x, VInt(2)>>, <<VInt(1), x>>) : x \in P2}
                \cup {VMap(<<VInt(2), x>>, <<x, VInt(1)>>) : x \in P2}
-          ELSE {VMap(<<x>>, <<y>>) : x \in P2, y \in P2}
-               \cup {VMap(<<x, VInt(2)>>, <<VInt(1), y>>) : x \in P2 \ {VInt(1)}, y \in P2}
+          ELSE {VMap(<<x>>, <<y>>) : x \in P2, y \in P2v}
+               \cup {VMap(<<x, VInt(2)>>, <<VInt(1), y>>) : x \in P2 \ {VInt(1)}, y \in P2v}
+               \cup {VMap(<<VInt(2), x>>, <<y, VInt(1)>>) : x \in P2 \ {VInt(1)}, y \in P2v}
 \* depth 3: one more level around a few depth-2 values
 P3 == {VList(<<VSet(<<VInt(1), VInt(2)>>)>>), VList(<<VSet(<<VInt(2), VInt(1)>>)>>),
        VSet(<<VSet(<< >>)>>), VSet(<<VList(<<VInt(1)>>)>>), VSet(<<VList(<<VDec(1, 1)>>)>>)}
 Deep3 == {VList(q) : q \in Seqs1(P3)} \cup {VSet(q) : q \in NDSeqs(P3, 2)}
          \cup {VMap(<<x>>, <<x>>) : x \in P3}
 
-U == Scalars \cup Lists1 \cup Sets1 \cup Maps1 \cup Lists2 \cup Sets2 \cup Maps2 \cup Deep3
+\* Tiers 1, 2: the universe of C06 / C08 (mostly containers in all insertion orders)
+UEq == Scalars \cup Lists1 \cup Sets1 \cup Maps1 \cup Lists2 \cup Sets2 \cup Maps2 \cup Deep3
+
+\* Tiers 3, 4: the universe of C07: values of the kinds whose order the
+\* statement names - strings over code points below and above the quote,
+\* ints and decimals mixed, booleans, dates, lists (and lists of lists) of
+\* them - and sets / maps of them in all insertion orders for the enumeration
+OAlpha == IF Tier = 3 THEN {32, 39, 40, 97, 233} ELSE {32, 33, 35, 39, 40, 65, 97, 233}
+OStrs  == {VStr(q) : q \in SeqsUpTo(OAlpha, 2)}
+OElem  == {VInt(1), VDec(1, 1), VInt(2), VDec(1, 2), VStr(<<97>>), VStr(<<97, 32>>), VBool(0), VBool(1)}
+         \cup (IF Tier = 3 THEN {} ELSE {VDate(D1), VDate(D3), VInt(-1), VStr(<<97, 39>>)})
+OLists == {VList(q) : q \in SeqsUpTo(OElem, IF Tier = 3 THEN 2 ELSE 3)}
+OInner == {VList(<< >>), VList(<<VInt(1)>>), VList(<<VDec(1, 1)>>), VList(<<VInt(2)>>),
+           VList(<<VInt(1), VInt(2)>>), VList(<<VStr(<<97>>)>>)}
+ONest  == {VList(q) : q \in SeqsUpTo(OInner, 2)}
+OSetS  == {VStr(<<97>>), VStr(<<97, 32>>), VStr(<<97, 39>>), VStr(<<65>>)}
+OSetN  == {VInt(1), VDec(1, 2), VInt(2), VDec(-1, 1)} \cup (IF Tier = 3 THEN {} ELSE {VDec(1, 1)})
+OSetB  == {VBool(0), VBool(1)}
+OSetL  == {VList(<<VInt(1)>>), VList(<<VInt(1), VInt(0)>>), VList(<< >>)}
+OSets  == {VSet(q) : q \in NDSeqs(OSetS, 3) \cup NDSeqs(OSetN, 3) \cup NDSeqs(OSetB, 2) \cup NDSeqs(OSetL, 3)}
+OMaps  == {VMap(q, [i \in 1..Len(q) |-> VInt(i)]) :
+             q \in NDSeqs(OSetS, IF Tier = 3 THEN 2 ELSE 3) \cup NDSeqs(OSetB, 2) \cup NDSeqs(OSetN, 2)}
+UOrd == Scalars \cup OStrs \cup OLists \cup ONest \cup OSets \cup OMaps
+
+U == IF Tier \in {1, 2} THEN UEq ELSE UOrd
 
 USeq == SetToSeq(U)
 N    == Len(USeq)
@@ -289,7 +317,9 @@ ExportU ==
 ExportEq ==
   mode = "pair" /\ ib = 1 => Emit("EQ", [i |-> ia, eq |-> EqT[ia]])
 ExportLt ==
-  mode = "pair" /\ ib = 1 => Emit("LT", [i |-> ia, lt |-> LtT[ia], st |-> StT[ia]])
+  mode = "pair" /\ ib = 1 =>
+    Emit("LT", [i |-> ia, lt |-> LtT[ia], st |-> StT[ia],
+                srt |-> IF a.k \in {"set", "map"} THEN NT[ia].items ELSE << >>])
 ExportTx ==
   mode = "pair" /\ ib = 1 => Emit("TX", [i |-> ia, txt |-> TxT[ia], toks |-> TokensN(NT[ia])])
 
